@@ -150,6 +150,7 @@ def _eval(task):
         plan += [list(p) for p in itertools.combinations(all_sites, 2) if p[0][1] != p[1][1] or {p[0][0], p[1][0]} <= {"blank", "block", "line", "kwupper", "idupper", "quote", "nl"} and p[0][0] != p[1][0]]
     out = []
     n = skipped = 0
+    inner_texts = set()
     for chosen in plan:
         if len({(k, i) for k, i in chosen}) != len(chosen):
             continue
@@ -160,6 +161,8 @@ def _eval(task):
             continue
         text = apply(toks, dialect, chosen)
         n += 1
+        if not all(k.startswith("semi") for k, _ in chosen):
+            inner_texts.add(text)
         o = obs(text, dialect)
         if o == base:
             continue
@@ -168,7 +171,7 @@ def _eval(task):
             continue
         ctx = [(k, toks[i - 1][0] if i > 0 else "^", toks[i][0] if i < len(toks) else "$") for k, i in chosen[:2]]
         out.append({"text": text, "sites": [list(c) for c in chosen[:4]], "n_sites": len(chosen), "context": ctx, "obs": o})
-    return {"n": n, "skipped": skipped, "bad": out, "base": base, "tokens": len(toks)}
+    return {"n": n, "skipped": skipped, "bad": out, "base": base, "tokens": len(toks), "inner": len(inner_texts)}
 
 
 def seeds_for(tier):
@@ -227,7 +230,7 @@ def run(tier: str, opts: dict) -> int:
             continue
         n_var += r["n"]
         n_skip += r["skipped"]
-        nontrivial += r["n"]
+        nontrivial += r["inner"]
         for b in r["bad"]:
             key = f"{t[2]}|{b['text']}"
             dg = common.digest(b["obs"])
@@ -257,7 +260,7 @@ def run(tier: str, opts: dict) -> int:
         seeds=len(seeds) - n_rej,
         seeds_not_parsed_by_sqlfluff=n_rej,
         rule=f"seeds: corpus single statements (quick: one per test function) + TPC-DS + generator cases; rewrites {KINDS}: every rewrite at every site singly, "
-        "every kind at all its sites at once (long seeds: only that), thorough: all pairs of sites for the 50 shortest seeds; non-trivial = every rewritten variant analysed",
+        "every kind at all its sites at once (long seeds: only that), thorough: all pairs of sites for the 50 shortest seeds; non-trivial = distinct rewritten texts whose rewrite lies inside the statement (not only appended semicolons), counted per seed",
         exhaustive=True,
         ineligible_variants_skipped=n_skip,
     )
